@@ -215,18 +215,57 @@ func mapOrigins(v ssa.Value, seen map[ssa.Value]bool, out *[]ssa.Value) {
 	}
 }
 
-func isFreshMap(v ssa.Value) bool {
+func isFreshMap(v ssa.Value) bool { return isFreshMapDepth(v, 2) }
+
+func isFreshMapDepth(v ssa.Value, depth int) bool {
 	switch x := v.(type) {
 	case *ssa.MakeMap:
 		return true
+	case *ssa.Phi:
+		for _, e := range x.Edges {
+			if !isFreshMapDepth(e, depth) {
+				return false
+			}
+		}
+		return len(x.Edges) > 0
 	case *ssa.Call:
 		callee := core.StaticCallee(x)
 		if callee != nil && callee.Pkg == nil && callee.Origin() != nil {
 			callee = callee.Origin()
 		}
-		return callee != nil && callee.Name() == "Clone" && callee.Pkg != nil && callee.Pkg.Pkg.Path() == "maps"
+		if callee != nil && callee.Name() == "Clone" && callee.Pkg != nil && callee.Pkg.Pkg.Path() == "maps" {
+			return true
+		}
+		// a helper of the library whose every result is a map it made or cloned itself (cloneParameters(params))
+		if callee != nil && depth > 0 && callee.Pkg != nil && strings.HasPrefix(callee.Pkg.Pkg.Path(), core.Mod) && len(callee.Blocks) > 0 && callee.Signature.Results().Len() == 1 {
+			n := 0
+			for _, b := range callee.Blocks {
+				if r, ok := b.Instrs[len(b.Instrs)-1].(*ssa.Return); ok {
+					n++
+					if !isFreshMapDepth(r.Results[0], depth-1) {
+						return false
+					}
+				}
+			}
+			return n > 0
+		}
 	}
 	return false
+}
+
+// copyLoopUpdate: m[k] = v where k, v are the key and value of a range over another map (a hand-written maps.Copy).
+func copyLoopUpdate(mu *ssa.MapUpdate) bool {
+	k, ok1 := mu.Key.(*ssa.Extract)
+	v, ok2 := mu.Value.(*ssa.Extract)
+	if !ok1 || !ok2 || k.Tuple != v.Tuple || k.Index != 1 || v.Index != 2 {
+		return false
+	}
+	nx, ok := k.Tuple.(*ssa.Next)
+	if !ok {
+		return false
+	}
+	rg, ok := nx.Iter.(*ssa.Range)
+	return ok && rg.X != mu.Map
 }
 
 func (c *Ctx) c12Maps() {
@@ -350,6 +389,10 @@ func (c *Ctx) c12Maps() {
 				if !ok {
 					continue
 				}
+				if copyLoopUpdate(mu) {
+					theMap = mu.Map
+					continue // the configured parameters copied in by hand: ordered against the fixed keys below
+				}
 				theMap = mu.Map
 				key, ok := core.ConstString(mu.Key)
 				if !ok {
@@ -468,7 +511,7 @@ func (c *Ctx) c12Maps() {
 						continue
 					}
 					key, _ := core.ConstString(mu.Key)
-					if key == "server_version" {
+					if key == "server_version" || copyLoopUpdate(mu) {
 						continue
 					}
 					before := bfn == wp && core.InstrDominates(mu, rng)
@@ -486,6 +529,7 @@ func (c *Ctx) c12Maps() {
 			// the connection's own values win: nothing is copied into the map after they were set (a bulk copy of the
 			// configured parameters behind the fixed keys lets a configured client_encoding / session_authorization /
 			// server_version override what the server announces about itself)
+			var bulk []ssa.Instruction
 			for _, ci := range core.Calls(bfn) {
 				f := core.StaticCallee(ci)
 				if f != nil && f.Origin() != nil {
@@ -503,28 +547,48 @@ func (c *Ctx) c12Maps() {
 				leaves(ci.Common().Args[0], map[ssa.Value]bool{}, &dst)
 				var tm []ssa.Value
 				leaves(theMap, map[ssa.Value]bool{}, &tm)
-				same := false
 				for _, d := range dst {
 					for _, m := range tm {
 						if d == m || d == theMap {
-							same = true
+							bulk = append(bulk, ci)
 						}
 					}
 				}
-				if !same {
-					continue
+			}
+			for _, b := range bfn.Blocks {
+				for _, in := range b.Instrs {
+					if mu, ok := in.(*ssa.MapUpdate); ok && copyLoopUpdate(mu) {
+						bulk = append(bulk, mu)
+					}
 				}
+			}
+			for _, w := range bulk {
+				// no fixed-key update can execute before the bulk copy
 				first := true
 				for _, b := range bfn.Blocks {
 					for _, in := range b.Instrs {
-						if mu, ok := in.(*ssa.MapUpdate); ok && !core.InstrDominates(ci, mu) {
-							if _, isK := core.ConstString(mu.Key); isK {
-								first = false
+						mu, ok := in.(*ssa.MapUpdate)
+						if !ok || copyLoopUpdate(mu) {
+							continue
+						}
+						if _, isK := core.ConstString(mu.Key); !isK {
+							continue
+						}
+						after := false
+						if mu.Block() == w.Block() {
+							after = core.InstrIndex(w) > core.InstrIndex(mu)
+						}
+						for _, sc := range mu.Block().Succs {
+							if reachableAvoiding(sc, func(*ssa.BasicBlock) bool { return false })[w.Block()] {
+								after = true
 							}
+						}
+						if after {
+							first = false
 						}
 					}
 				}
-				R.Check(first, "C12.R2", "writeParameters:configured-copied-before-fixed-keys", c.at(ci), "server_encoding, client_encoding, is_superuser, session_authorization and server_version are what the server sets, whatever the configured parameters contain", "the bulk copy of the configured parameters precedes every fixed-key update", "configured parameters are copied into the map after the fixed keys were set: a GlobalParameters entry for client_encoding / session_authorization / server_version overrides the value the property prescribes")
+				R.Check(first, "C12.R2", "writeParameters:configured-copied-before-fixed-keys", c.at(w), "server_encoding, client_encoding, is_superuser, session_authorization and server_version are what the server sets, whatever the configured parameters contain", "the bulk copy of the configured parameters precedes every fixed-key update", "configured parameters are copied into the map after the fixed keys were set: a GlobalParameters entry for client_encoding / session_authorization / server_version overrides the value the property prescribes")
 			}
 			// key/value emitted are the iteration's key/value
 			okKV := 0
@@ -602,7 +666,7 @@ func (c *Ctx) c12Maps() {
 	}
 
 	// ---------- R4: readClientParameters
-	rcp := c.mustMethod("C12.R4", "wire", "Server", "readClientParameters")
+	rcp := c.mustFn("C12.R4", "wire", "Server", "readClientParameters")
 	if rcp != nil {
 		R.Analysed(fname(rcp))
 		n := 0
